@@ -18,7 +18,7 @@ def counts(out):
 def main():
     prop = sys.argv[1]
     offset = int(sys.argv[2]) if len(sys.argv) > 2 else 0
-    wt = '/tmp/wt/' + prop
+    wt = '/tmp/wt/' + (sys.argv[3] if len(sys.argv) > 3 else prop)   # optional third argument: the worktree's directory name
     outdir = os.path.join(wt, '_out')
     for k in sorted(os.listdir(outdir)):
         d = os.path.join(outdir, k)
